@@ -49,6 +49,9 @@ class C08(Property):
              (FEAT + "cdscollection.py", "_SectionedCDSTuple.index"),
              (FEAT + "cdscollection.py", "_SectionedCDSTuple._lookup"),
              (FEAT + "protocluster.py", "Protocluster.__init__"),
+             (FEAT + "protocluster.py", "SideloadedProtocluster.__init__"),
+             (FEAT + "protocluster.py", "SideloadedProtocluster.definition_cdses"),
+             (FEAT + "subregion.py", "SideloadedSubRegion.__init__"),
              (FEAT + "subregion.py", "SubRegion.__init__"),
              (FEAT + "candidate_cluster/structures.py", "CandidateCluster.__init__"),
              (FEAT + "region/structures.py", "Region.__init__"),
@@ -304,11 +307,12 @@ class C08(Property):
         for i in range(rng.choice([0, 1, 1, 2, 2, 3])):
             loc = self.rand_area_loc(rng, n, circular, anchors)
             core = self.core_inside(rng, loc, n)
-            protos.append({"id": 100 + i, "kind": "proto", "loc": loc, "core": core,
-                           "product": rng.choice(products)})
+            protos.append({"id": 100 + i, "kind": "sideproto" if rng.random() < 0.2 else "proto", "loc": loc,
+                           "core": core, "product": rng.choice(products)})
         subs = []
         for i in range(rng.choice([0, 0, 1, 1, 2])):
-            subs.append({"id": 200 + i, "kind": "sub", "loc": self.rand_area_loc(rng, n, circular, anchors)})
+            subs.append({"id": 200 + i, "kind": "sub", "loc": self.rand_area_loc(rng, n, circular, anchors),
+                         "sideloaded": rng.random() < 0.2})
         if not protos and not subs:
             subs.append({"id": 200, "kind": "sub", "loc": self.rand_area_loc(rng, n, circular, anchors)})
         cands = []
@@ -494,6 +498,8 @@ class C08(Property):
     def execute(self, case: Dict[str, Any], ops: List[List[Any]]) -> Dict[str, Any]:
         """runs one ordering on fresh objects; returns observations and the regions created"""
         from antismash.common.secmet.features import CandidateCluster, Protocluster, SubRegion
+        from antismash.common.secmet.features.protocluster import SideloadedProtocluster
+        from antismash.common.secmet.features.subregion import SideloadedSubRegion
         from antismash.common.secmet.features.candidate_cluster import CandidateClusterKind
         from antismash.common.secmet.test.helpers import DummyRecord
         n, circular = case["len"], case["circ"]
@@ -502,13 +508,20 @@ class C08(Property):
         descr: Dict[int, Dict[str, Any]] = {}
         try:
             for p in case["protos"]:
-                objs[p["id"]] = Protocluster(common.make_location(p["core"]), common.make_location(p["loc"]),
-                                             tool="t", product=p["product"], cutoff=0, neighbourhood_range=0,
-                                             detection_rule="r")
+                if p["kind"] == "sideproto":
+                    objs[p["id"]] = SideloadedProtocluster(common.make_location(p["core"]), common.make_location(p["loc"]),
+                                                           "t", p["product"])
+                else:
+                    objs[p["id"]] = Protocluster(common.make_location(p["core"]), common.make_location(p["loc"]),
+                                                 tool="t", product=p["product"], cutoff=0, neighbourhood_range=0,
+                                                 detection_rule="r")
                 descr[p["id"]] = dict(p, kids=[])
             for s in case["subs"]:
-                objs[s["id"]] = SubRegion(common.make_location(s["loc"]), tool="t", label="l")
-                descr[s["id"]] = dict(s, kids=[])
+                if s.get("sideloaded"):
+                    objs[s["id"]] = SideloadedSubRegion(common.make_location(s["loc"]), "t", label="l")
+                else:
+                    objs[s["id"]] = SubRegion(common.make_location(s["loc"]), tool="t", label="l")
+                descr[s["id"]] = {"id": s["id"], "kind": "sub", "loc": s["loc"], "kids": []}
             for c in case["cands"]:
                 objs[c["id"]] = CandidateCluster(CandidateClusterKind.NEIGHBOURING, [objs[k] for k in c["kids"]],
                                                  circular_wrap_point=n if circular else None)
@@ -563,7 +576,7 @@ class C08(Property):
                     if generic:
                         rec.add_feature(obj)
                     else:
-                        {"proto": rec.add_protocluster, "sub": rec.add_subregion,
+                        {"proto": rec.add_protocluster, "sideproto": rec.add_protocluster, "sub": rec.add_subregion,
                          "cand": rec.add_candidate_cluster}[descr[op[1]]["kind"]](obj)
                 elif kind == "regions":
                     known = {id(r) for r in rec.get_regions()}
